@@ -223,6 +223,18 @@ class DisconnectingModule:
     def __invert__(self):
         return self.__dict__["orig"]
 
+    def __lshift__(self, other):
+        self.parent.connect(other, self)
+        if isinstance(other, list):
+            other = ModuleList(self.parent, other)
+        return other
+
+    def __rshift__(self, other):
+        self.parent.connect(self, other)
+        if isinstance(other, list):
+            other = ModuleList(self.parent, other)
+        return other
+
 
 class Module(metaclass=ModuleMeta):
     """Abstract base class for all SunVox module classes.
